@@ -144,3 +144,6 @@ func TestC12(t *testing.T) {
 		}
 	})
 }
+
+// FuzzC12 is the native coverage-guided supplement of the generated part (thorough tier only).
+func FuzzC12(f *testing.F) { fuzzProperty(f, TestC12) }
